@@ -4936,11 +4936,18 @@ class QntRmUnusedMacro(Macro):
         lhs, rhs = goal.args
         if not lhs.is_forall() and not lhs.is_exists():
             raise VeriTException("qnt_rm_unused", "lhs should have a quantifier")
-        l_vars, l_bd = lhs.strip_quant()
-        if rhs.is_forall() or rhs.is_exists():
-            r_vars, r_bd = rhs.strip_quant()
-        else:
-            r_vars, r_bd = [], rhs
+        def strip_quant_kinds(tm):
+            """[(is_forall, variable)] of the quantifier prefix, and the body"""
+            prefix = []
+            while tm.is_forall() or tm.is_exists():
+                is_all = tm.is_forall()
+                vs, tm = tm.strip_forall(num=1) if is_all else tm.strip_exists(num=1)
+                prefix.append((is_all, vs[0]))
+            return prefix, tm
+
+        l_vars, l_bd = strip_quant_kinds(lhs)
+        r_vars, r_bd = strip_quant_kinds(rhs)
+        check_bound_names("qnt_rm_unused", goal, [v for _, v in l_vars], [v for _, v in r_vars])
         free_vars = []
         if l_bd != r_bd:
             print("lhs", lhs)
@@ -4949,7 +4956,7 @@ class QntRmUnusedMacro(Macro):
         
         for l in l_vars:
             if l not in r_vars:
-                if r_bd.occurs_var(l):
+                if r_bd.occurs_var(l[1]):
                     raise VeriTException("qnt_rm_unused", "a free variable was removed")
             else:
                 free_vars.append(l)
